@@ -47,9 +47,12 @@ COMPONENTS = {
 ASSUMPTIONS = ['hash order pinned with PYTHONHASHSEED=0 (determinism self-test '
                'repeats under another hash seed)']
 
-PROBES = ['pa.ma.f', 'pb.ma.f', 'ma.g', 'h', 'q.Zed', 'q.zed', 'r.zed']
-# registered in the middle of the history: makes the short selectors 'g' and 'pa.ma.f' insufficient afterwards
-LATE_PROBES = ['mb.g', 'xx.pa.ma.f']
+# ('ta.Tr.step' is a registered method of the registered class ta.Tr)
+PROBES = ['pa.ma.f', 'pb.ma.f', 'ma.g', 'h', 'q.Zed', 'q.zed', 'r.zed',
+          'ta.Tr.step']
+# registered in the middle of the history: makes the short selectors 'g',
+# 'pa.ma.f' and 'Tr.step' insufficient afterwards
+LATE_PROBES = ['mb.g', 'xx.pa.ma.f', 'tb.Tr.step']
 
 
 class Mode(enum.IntEnum):
@@ -189,6 +192,15 @@ def run(case):
     return dict(named)
 
   def register_one(full):
+    if full.endswith('.Tr.step'):
+      g = {'__name__': 'ginsim_probes'}
+      exec('class Tr:\n'  # pylint: disable=exec-used
+           '  def __init__(self, k=0):\n    self.k = k\n'
+           "  def step(self, a='dflt', b='dflt', c='dflt'):\n"
+           "    return {'a': a, 'b': b, 'c': c}\n", g)
+      g['Tr'].step = gin.register(g['Tr'].step)
+      gin.register(module=full.split('.')[0])(g['Tr'])
+      return
     mod, _, name = full.rpartition('.')
     pyname = 'fn_' + full.replace('.', '_')
     obj, _ = probes.compile_probe(
@@ -204,12 +216,7 @@ def run(case):
       for full in LATE_PROBES:
         register_one(full)
     for full in PROBES:
-      mod, _, name = full.rpartition('.')
-      pyname = 'fn_' + full.replace('.', '_')
-      obj, _ = probes.compile_probe(
-          {'name': pyname, 'kind': 'fn',
-           'params': [{'n': p, 'k': 'def', 'd': 'dflt'} for p in 'abc']}, hook)
-      gin.configurable(name, module=mod or 'rootmod')(obj)
+      register_one(full)
 
   def fullname(full):
     return full if '.' in full else 'rootmod.' + full
